@@ -17,17 +17,22 @@ MBTInit == Init /\ hist = <<>>
 R(S) == {RandomElement(S)}
 SimNext ==
   \/ \E k \in R(K), v \in R(Vals) : Put(k, v)
+  \/ \E k \in R(K), v \in R(Vals \ {""}) : Put(k, v)      \* twice: keep the store populated
   \/ \E k \in R(K) : Delete(k)
-  \/ \E k \in R(K) : Get(k)
-  \/ \E k \in R(K) : BatchGet(k)
-  \/ \E k \in R(K) : SnapGet(k)
+  \/ \E k \in R(K), c \in R(BOOLEAN) : Get(k, c)
+  \/ \E k \in R(K) : Has(k)
+  \/ \E k \in R(K), c \in R(BOOLEAN) : BatchGet(k, c)
+  \/ \E k \in R(K) : BatchHas(k)
+  \/ \E k \in R(K), c \in R(BOOLEAN) : SnapGet(k, c)
+  \/ \E k \in R(K) : SnapHas(k)
   \/ \E k \in R(K) : IterSeek(k)
   \/ \E s \in R(K), e \in R(K) : DeleteRange(s, e)
-  \/ \E ops \in R(UpdateOps), f \in R(BOOLEAN) : UpdateFn(ops, f)
-  \/ \E ix \in R(BOOLEAN) : NewBatch(ix)
+  \/ \E ops \in R(UpdateOps), rk \in R(0..NK), f \in R(BOOLEAN), h \in R({"update", "write"}) :
+        UpdateFn(ops, IF h = "write" THEN 0 ELSE rk, f, h)
+  \/ \E ix \in R(BOOLEAN), sz \in R(BOOLEAN) : NewBatch(ix, sz)
   \/ \E o \in R(BatchOpAlphabet) : BatchAdd(o, "BatchOp")
   \/ \E o \in R({PutOp(k, v) : k \in K, v \in Vals}) : BatchAdd(o, "BatchOp")
-  \/ BatchWrite \/ BatchDiscard
+  \/ BatchSize \/ BatchWrite \/ BatchDiscard
   \/ NewSnapshot \/ SnapClose
   \/ \E src \in R({"store", "batch", "snap"}), p \in R(Prefixes), ub \in R(BOOLEAN) : NewIter(src, p, ub)
   \/ \E p \in R(Prefixes \ {<<>>}) : NewIter("store", p, TRUE)
